@@ -86,6 +86,10 @@ MUTATIONS = [
     ('p-override-ignored', 'C13', P, "        deep_merge(ports, self.schema_override)\n", "        deep_merge(ports, self._schema_override)\n"),
     ('p-end-not-draining', 'C13', P, "            self._command_result = self.parent.recv()\n        self.parent.send(('end', None, None))",
      "            pass\n        self.parent.send(('end', None, None))"),
+    # hand-port of seeded change C07-r4-3 (its patch no longer applies after 04af454)
+    ('w-store-entry-views-first', 'C07', E,
+     "            self.state.set_value(self.initial_state)\n            # children of glob stores that the initial state creates\n            # start from their declared defaults, as in generate()\n            self.state.apply_defaults()\n            # build the processes' views\n            self.state.build_topology_views()\n",
+     "            self.state.build_topology_views()\n            self.state.set_value(self.initial_state)\n            self.state.apply_defaults()\n"),
     ('p-stale-view', 'C13', P, "        self.parent.send((command, args, kwargs))\n\n    def get_command_result",
      "        if command == 'next_update':\n            self._v0 = getattr(self, '_v0', None) or args[1]\n            args = (args[0], self._v0)\n        self.parent.send((command, args, kwargs))\n\n    def get_command_result"),
     ('p-no-ended-guard', 'C13', P, "        # Only end once.\n        if self._ended:\n            return\n", "        # Only end once.\n"),
